@@ -262,6 +262,52 @@ func dblc(rng *rand.Rand, G float64, U int64) [][]ipt {
 }
 
 // edgehole: a rectangle with a small hole within a pixel of one of its sides or corners (top/right ones included)
+// pinhole: a rectangle with a hole smaller than a deepest pixel that sits in a pixel one of the shell's sides passes through (the hole collapses
+// to a point on every level, but its pixel is hot: the side must be routed through its centre); sometimes a second, ordinary hole as well
+func pinhole(rng *rand.Rand, G float64, U int64) [][]ipt {
+	shell := rectOnLattice(rng, G, U)
+	if len(shell) != 4 || U < 4 {
+		return nil
+	}
+	a, b, c, d := shell[0].x, shell[0].y, shell[2].x, shell[2].y
+	if c-a < 4*U || d-b < 4*U {
+		return nil
+	}
+	var hole []ipt
+	switch rng.Intn(4) {
+	case 0: // left side
+		if a%U > U-3 {
+			return nil
+		}
+		y0 := (b/U+1)*U + rng.Int63n((d-b)/U-2)*U
+		hole = []ipt{{a + 1, y0 + 1}, {a + 2, y0 + 1}, {a + 1, y0 + 2}}
+	case 1: // right side
+		if c%U < 3 {
+			return nil
+		}
+		y0 := (b/U+1)*U + rng.Int63n((d-b)/U-2)*U
+		hole = []ipt{{c - 1, y0 + 1}, {c - 1, y0 + 2}, {c - 2, y0 + 1}}
+	case 2: // bottom side
+		if b%U > U-3 {
+			return nil
+		}
+		x0 := (a/U+1)*U + rng.Int63n((c-a)/U-2)*U
+		hole = []ipt{{x0 + 1, b + 1}, {x0 + 1, b + 2}, {x0 + 2, b + 1}}
+	default: // top side
+		if d%U < 3 {
+			return nil
+		}
+		x0 := (a/U+1)*U + rng.Int63n((c-a)/U-2)*U
+		hole = []ipt{{x0 + 1, d - 1}, {x0 + 2, d - 1}, {x0 + 1, d - 2}}
+	}
+	rings := [][]ipt{{{a, b}, {c, b}, {c, d}, {a, d}}, hole}
+	if rng.Intn(3) == 0 && c-a > 8*U && d-b > 8*U { // an ordinary hole in the middle
+		mx, my := (a+c)/2, (b+d)/2
+		rings = append(rings, []ipt{{mx, my}, {mx, my + 2*U}, {mx + 2*U, my + 2*U}, {mx + 2*U, my}})
+	}
+	return rings
+}
+
 func edgehole(rng *rand.Rand, G float64, U int64) [][]ipt {
 	shell := rectOnLattice(rng, G, U)
 	if len(shell) != 4 {
@@ -371,9 +417,11 @@ func genValid(rng *rand.Rand, family string, G float64, U int64, maxv int) (res 
 	var shell []ipt
 	cx, cy, rmax := 0.0, 0.0, 0.0
 	switch family {
-	case "chole", "edgehole", "dblc":
+	case "chole", "edgehole", "dblc", "pinhole":
 		var rings [][]ipt
 		switch family {
+		case "pinhole":
+			rings = pinhole(rng, G, U)
 		case "chole":
 			rings = chole(rng, G, U)
 		case "dblc":
@@ -680,7 +728,7 @@ func pickWindow(rng *rand.Rand, ws []window) window {
 	return ws[0]
 }
 
-var validFamilies = []string{"star", "star", "holes", "holes", "comb", "sliver", "pinched", "rect", "chole", "edgehole", "dblc", "tiny", "thinpath"}
+var validFamilies = []string{"star", "star", "holes", "holes", "comb", "sliver", "pinched", "rect", "chole", "edgehole", "dblc", "tiny", "thinpath", "pinhole"}
 
 // genCase: one snapping case. valid=true: a valid polygon; otherwise arbitrary vertex sequences.
 func genCase(rng *rand.Rand, w window, valid bool, maxv int) *snapCase {
